@@ -88,6 +88,11 @@ def gen_formulas():
                 out.append({"resp": resp, "icpt": icpt, "common": margins + [t], "group": []})
                 if len(t) == 3:
                     out.append({"resp": resp, "icpt": icpt, "common": [[t[0]], t[:2], t], "group": []})
+    # the same families spelled with the operators that build terms out of shared operands
+    for rhs in ["f/g", "g/f", "f/x", "x/f", "(f + g)*x", "(f + g):x + f", "(f + g + x)**2", "f*g*x", "f*g", "C(k)*f", "(f + g)/x",
+                "f:(g + x) + f", "(f + x):(g + z)", "f*g - f", "(f + g + C(k))**2", "x*f*z"]:
+        for icpt in (True, False):
+            out.append({"resp": "y", "icpt": icpt, "common": [["f", "g"]], "group": [], "rhs": rhs})
     effects = [["1"], ["x"], ["f"], ["f", "x"], ["x", "f"], ["1", "x"], ["1", "f"]]
     factors = [["h"], ["g", "h"], ["h", "g"], ["k"]]
     for e in effects:
@@ -113,6 +118,8 @@ def formula_of(c):
     items = []
     if not c["icpt"]:
         items.append("0")
+    if c.get("rhs"):
+        return f"{c['resp']} ~ " + " + ".join(items + [c["rhs"]])
     items += [term_text(t) for t in c["common"]]
     for g in c["group"]:
         effs = []
